@@ -7,3 +7,50 @@ def run(ck):
     c05.run(ck, spec=lambda obs, lines, info: connlts.spec_c08(obs, lines),
             keys=("st", "tr", "sock", "timers", "writes", "deliv", "start", "finish", "disc"),
             what="connection LTS != implementation (resource projection)", pid="C08")
+    ck.coverage["noise_handshake_close_cases"] = noise_handshake_closes(ck)
+
+
+def noise_handshake_closes(ck):
+    """an encrypted session that is closed while the Noise handshake is still pending (the device has not answered the hello):
+    once the connect phase has ended, no timer is left armed - the handshake timeout in particular - and nothing stays blocked"""
+    import c09
+
+    n = 0
+    for cause in ("eof", "reset", "garbage", "force"):
+        for answered_hello in (False, True):
+            net, conn = c09.mk_conn(True)
+            loop = net.loop
+            s0 = c09.Stamp(loop, conn.start_connection())
+            loop.run_idle(); net.complete_resolve(); loop.run_idle(); net.complete_sock(); loop.run_idle()
+            st = c09.Stamp(loop, conn.finish_connection(login=False))
+            loop.run_idle()
+            if answered_hello:
+                net.feed(b"\x01\x00\x01\x01")      # a ServerHello without a name; the handshake frame never comes
+                loop.run_idle()
+            extra = None
+            if cause == "eof":
+                net.eof()
+            elif cause == "reset":
+                net.reset()
+            elif cause == "garbage":
+                net.feed(b"\x07\x07\x07\x07")
+            elif cause == "force":
+                conn.force_disconnect()
+            else:
+                extra = c09.Stamp(loop, conn.disconnect())
+            for _ in range(4):
+                loop.run_idle()
+            n += 1
+            timers = [lab for _, lab in loop.armed_timers()]
+            blocked = [name for name, s in (("finish_connection", st), ("disconnect", extra)) if s is not None and not s.task.done()]
+            closed = conn.connection_state is c09.simnet.ac.CONNECTION_STATE_CLOSED if hasattr(c09.simnet, "ac") else not conn.is_connected
+            if timers or blocked or not closed:
+                ck.violation(f"c08:noise-handshake-close:{cause}", f"encrypted session closed by {cause} while the handshake was pending "
+                             f"(ServerHello {'received' if answered_hello else 'not received'}): closed={closed}, timers still armed {timers}, "
+                             f"calls still blocked {blocked}", {"cause": cause, "server_hello_received": answered_hello, "timers": timers,
+                                                                "blocked": blocked})
+            for s in (s0, st, extra):
+                if s is not None and s.task.done() and not s.task.cancelled():
+                    s.task.exception()
+            net.close()
+    return n
